@@ -10,7 +10,9 @@ EXPLANATION = (
     "the buffer stored by set_val passes through copying casts (no copy=False, np.array on every normaliser path) and indexed stores write into the existing "
     "buffer; R5 no function writes into a container parameter (item assignment / in-place method) unless it was rebound to a fresh copy first; R6 each of the "
     "validated Config attributes is stored only in its own setter, under a test on the very value stored, with raise on the other branch; Config.update goes "
-    "through setattr. Residual: mutation through NumPy views the user holds; aliasing through objects stored inside Config (op_out etc. are references by design).")
+    "through setattr. Residual: mutation through NumPy views the user holds; aliasing through objects stored inside Config (op_out etc. are references by design)."
+    ' Added after the third round of seeded changes: R7 no function writes class-level state; status records are replaced only in the constructor (C04.R3 ownership).'
+)
 ASSUMPTIONS = ["copy.deepcopy recursively copies dicts, lists, ndarrays and instances; copy.copy / Fxp.copy() copy one level (lemma)",
                "ndarray.astype / np.array copy unless copy=False (lemma)"]
 TRUSTED = ["CPython ast", "freshness lattice of DESIGN A7"]
